@@ -447,8 +447,10 @@ def getitem_rule(ctx, rule: str):
     ctx.report.floor(rule + ".deepcopy", 3)
 
 
-def _all_paths_raise(fn: ast.FunctionDef, exc_names=("TypeError",)) -> Optional[str]:
-    """None when every path of ``fn`` ends in ``raise <exc>(...)``; otherwise why not."""
+def _all_paths_raise(fn: ast.FunctionDef, exc_names=("TypeError",), resolve=None, _depth=3) -> Optional[str]:
+    """None when every path of ``fn`` ends in ``raise <exc>(...)`` -- or in a call (``return self._refuse(...)``,
+    ``self._refuse(...)``) of a function of the code base of which the same holds (``resolve(call)`` names it);
+    otherwise why not."""
 
     def block(body) -> Optional[str]:
         if not body:
@@ -470,6 +472,11 @@ def _all_paths_raise(fn: ast.FunctionDef, exc_names=("TypeError",)) -> Optional[
             if not last.orelse:
                 return "line %d: an if without else can fall through" % last.lineno
             return block(last.body) or block(last.orelse)
+        if isinstance(last, (ast.Return, ast.Expr)) and isinstance(last.value, ast.Call) and resolve is not None and _depth > 0:
+            g = resolve(last.value)
+            if g is not None:
+                why = _all_paths_raise(g.node, exc_names, resolve, _depth - 1)
+                return None if why is None else "line %d: delegates to %s, where %s" % (last.lineno, g.qualname, why)
         return "line %d: the last statement is %s, not a raise" % (last.lineno, type(last).__name__)
 
     return block([s for s in fn.body if not (isinstance(s, ast.Expr) and isinstance(s.value, ast.Constant))])
@@ -482,6 +489,20 @@ def add_guard_rule(ctx, rule: str):
     r = ctx.report
     ctx.established.add("add-guard")
     ci = p.get_class("moclo.record.CircularRecord")
+
+    def resolve(call):
+        # self.<hook>(...) resolved on the circular record's own MRO; a plain module-level helper
+        f = call.func
+        g = None
+        if isinstance(f, ast.Attribute) and isinstance(f.value, ast.Name) and f.value.id == "self":
+            _, g = p.class_attr_def(ci, f.attr)
+        elif isinstance(f, ast.Name):
+            try:
+                g = p.resolve_expr(ci.module, f)
+            except Exception:
+                g = None
+        return g if isinstance(g, FuncInfo) and not g.node.decorator_list else None
+
     for name in ("__add__", "__radd__"):
         owner, raw = p.class_attr_def(ci, name)
         if not isinstance(raw, FuncInfo):
@@ -506,11 +527,11 @@ def add_guard_rule(ctx, rule: str):
             else:
                 why = "decorator of %s cannot be resolved" % name
         else:
-            why = _all_paths_raise(raw.node)
+            why = _all_paths_raise(raw.node, resolve=resolve)
         r.ob(rule, raw.qualname, why is None, why or "", raw.where())
     owner, raw = p.class_attr_def(ci, "__iadd__")
     if isinstance(raw, FuncInfo):
-        why = _all_paths_raise(raw.node)
+        why = _all_paths_raise(raw.node, resolve=resolve)
         r.ob(rule, raw.qualname, why is None, why or "", raw.where())
     r.floor(rule, 2)
 
